@@ -256,9 +256,22 @@ def isConst : Expr → Bool
 def constRejected (l : LoopSpec) : Bool :=
   isConst (countExpr l) && decide (eval (fun _ => 0) (countExpr l) ≤ 0)
 
+/-- "OKL for loop step cannot be zero" (fix F60): a compile-time constant step that evaluates to 0 -/
+def zeroStep (l : LoopSpec) : Bool :=
+  match l.step with
+  | some s => isConst s && decide (eval (fun _ => 0) s = 0)
+  | none => false
+
+/-- `iteratorOnSmallerSide == positiveUpdate` (fix F70): the update has to move the iterator towards the bound -/
+def directionOk (l : LoopSpec) : Bool :=
+  (match l.cmp with | .lt | .le => l.boundOnRight | _ => !l.boundOnRight) == l.positive
+
+/-- the validity checks of the `oklForStatement` constructor that depend on the header's operands -/
+def loopRejected (l : LoopSpec) : Bool := zeroStep l || !directionOk l || constRejected l
+
 /-- a nest is rejected if an OKL loop or a `@tile` loop (tile.cpp validates with oklForStatement too) is -/
 def nestRejected (specs : List (LoopSpec × Option TileSpec)) : Bool :=
-  specs.any fun (l, t) => (l.attr != .none || t.isSome) && constRejected l
+  specs.any fun (l, t) => (l.attr != .none || t.isSome) && loopRejected l
 
 /-! ### OKL loop indices and the lines of each translation -/
 
